@@ -337,3 +337,40 @@ package writer
 //@   ensures [counters-aligned-with-dictionaries] implies(result == nil && len(colsToDrop) > 0, len(stb.segDictLastNum) == len(stb.segDictMap) && forall(j, 0, len(stb.segDictLastNum), stb.segDictLastNum[j] == old(stb.segDictLastNum)[uf("keptIdx", int, dropIndexes, j)] && stb.segDictMap[j] == old(stb.segDictMap)[uf("keptIdx", int, dropIndexes, j)]))
 //@   ensures [reverse-dictionaries-aligned] implies(result == nil && len(colsToDrop) > 0, len(stb.segDictEncRev) == len(stb.segDictMap) && forall(j, 0, len(stb.segDictEncRev), stb.segDictEncRev[j] == old(stb.segDictEncRev)[uf("keptIdx", int, dropIndexes, j)]))
 //@ end
+
+// C01: representation invariant of the open block's timestamp buffer, which
+// encodeTimestamps relies on (it stores ts - LowTs in the narrowest width that
+// holds HighTs - LowTs): the first n buffered timestamps lie in [LowTs, HighTs].
+// encodeTime is the only writer of blockTs; it re-establishes the invariant
+// for the record it adds (the callers increment RecCount afterwards).  Zero is
+// the "unset" sentinel of LowTs/HighTs, so the step needs a non-zero timestamp
+// (ingest replaces a missing/zero timestamp by the current time).
+//@ spec wipTsInv(w *WipBlock, n int) bool = n <= len(w.blockTs) && forall(k, 0, n, w.blockSummary.LowTs <= w.blockTs[k] && w.blockTs[k] <= w.blockSummary.HighTs) && implies(n > 0, w.blockSummary.LowTs != 0 && w.blockSummary.HighTs != 0)
+//@ func (*WipBlock).adjustEarliestLatestTimes
+//@   props C01
+//@   requires wipBlock != nil
+//@   modifies wipBlock.blockSummary.LowTs, wipBlock.blockSummary.HighTs
+//@   ensures [low] wipBlock.blockSummary.LowTs == ite(old(wipBlock.blockSummary.LowTs) == 0 || ts_millis < old(wipBlock.blockSummary.LowTs), ts_millis, old(wipBlock.blockSummary.LowTs))
+//@   ensures [high] wipBlock.blockSummary.HighTs == ite(old(wipBlock.blockSummary.HighTs) == 0 || ts_millis > old(wipBlock.blockSummary.HighTs), ts_millis, old(wipBlock.blockSummary.HighTs))
+//@   safe
+//@ end
+
+// helpers of encodeTime: frames only, ASSUMED.  InitColWip allocates a fresh
+// column buffer; addRollup records the record number in the rollup maps (the
+// bit set it updates owns its word array, which no other slice aliases).
+//@ func InitColWip
+//@   assumed
+//@   pure
+//@   nonnil
+//@ end
+//@ func addRollup
+//@   assumed
+//@   modifies mapof(rrmap), fieldsof(RolledRecs)
+//@ end
+
+//@ func (*SegStore).encodeTime
+//@   props C01
+//@   requires ss != nil && tsKey != nil && recordTimeMS != 0 && wipTsInv(ss.wipBlock, int(ss.wipBlock.blockSummary.RecCount))
+//@   ensures [timestamp-buffered] ss.wipBlock.blockTs[old(ss.wipBlock.blockSummary.RecCount)] == recordTimeMS && ss.wipBlock.blockSummary.RecCount == old(ss.wipBlock.blockSummary.RecCount)
+//@   ensures [block-invariant-for-the-new-record] wipTsInv(ss.wipBlock, int(ss.wipBlock.blockSummary.RecCount) + 1)
+//@ end
